@@ -3,125 +3,25 @@
 package c19
 
 import (
-	"errors"
 	"fmt"
 	"io"
 	"log/slog"
-	"net"
 	"sort"
-	"strconv"
-	"sync"
 	"testing"
 	"testing/synctest"
 	"time"
 
-	"github.com/hashicorp/memberlist"
 	"github.com/prometheus/client_golang/prometheus"
 
 	"github.com/prometheus/alertmanager/cluster"
 	"github.com/prometheus/alertmanager/nflog"
 
+	"verifharness/memhub"
 	"verifharness/vh"
 )
 
-// ---------- an in-memory memberlist.Transport: a hub that routes packets and streams by ip:port ----------
-// No sockets: the whole cluster (real memberlist, real cluster.Peer / delegate / AddState Channel, real nflog.Log)
-// runs inside one synctest bubble, so failure detection, gossip and push/pull happen in virtual time.
-
-type memHub struct {
-	mu    sync.Mutex
-	nodes map[string]*memTransport
-}
-
-type memTransport struct {
-	hub      *memHub
-	ip       net.IP
-	port     int
-	packetCh chan *memberlist.Packet
-	streamCh chan net.Conn
-	mu       sync.Mutex
-	closed   bool
-}
-
-func (h *memHub) listen(addr string) (*memTransport, error) {
-	host, portStr, err := net.SplitHostPort(addr)
-	if err != nil {
-		return nil, err
-	}
-	port, _ := strconv.Atoi(portStr)
-	h.mu.Lock()
-	defer h.mu.Unlock()
-	if _, ok := h.nodes[addr]; ok {
-		return nil, errors.New("address in use")
-	}
-	t := &memTransport{hub: h, ip: net.ParseIP(host), port: port, packetCh: make(chan *memberlist.Packet, 1024), streamCh: make(chan net.Conn, 64)}
-	h.nodes[addr] = t
-	return t, nil
-}
-
-func (h *memHub) lookup(addr string) *memTransport {
-	h.mu.Lock()
-	defer h.mu.Unlock()
-	return h.nodes[addr]
-}
-
-func (t *memTransport) addr() string { return net.JoinHostPort(t.ip.String(), strconv.Itoa(t.port)) }
-
-func (t *memTransport) FinalAdvertiseAddr(string, int) (net.IP, int, error) { return t.ip, t.port, nil }
-
-func (t *memTransport) WriteTo(b []byte, addr string) (time.Time, error) {
-	now := time.Now()
-	dst := t.hub.lookup(addr)
-	if dst == nil {
-		return now, nil // UDP to nowhere
-	}
-	dst.mu.Lock()
-	defer dst.mu.Unlock()
-	if dst.closed {
-		return now, nil
-	}
-	select {
-	case dst.packetCh <- &memberlist.Packet{Buf: append([]byte(nil), b...), From: &net.UDPAddr{IP: t.ip, Port: t.port}, Timestamp: now}:
-	default: // full buffer: dropped, like UDP
-	}
-	return now, nil
-}
-
-func (t *memTransport) PacketCh() <-chan *memberlist.Packet { return t.packetCh }
-func (t *memTransport) StreamCh() <-chan net.Conn           { return t.streamCh }
-
-func (t *memTransport) DialTimeout(addr string, _ time.Duration) (net.Conn, error) {
-	dst := t.hub.lookup(addr)
-	if dst == nil {
-		return nil, errors.New("connection refused")
-	}
-	dst.mu.Lock()
-	defer dst.mu.Unlock()
-	if dst.closed {
-		return nil, errors.New("connection refused")
-	}
-	c1, c2 := net.Pipe()
-	select {
-	case dst.streamCh <- c2:
-		return c1, nil
-	default:
-		c1.Close()
-		c2.Close()
-		return nil, errors.New("backlog full")
-	}
-}
-
-func (t *memTransport) Shutdown() error {
-	t.mu.Lock()
-	t.closed = true
-	t.mu.Unlock()
-	t.hub.mu.Lock()
-	if t.hub.nodes[t.addr()] == t {
-		delete(t.hub.nodes, t.addr())
-	}
-	t.hub.mu.Unlock()
-	return nil
-}
+// The cluster runs on harness/memhub (in-memory memberlist.Transport): real memberlist, real cluster.Peer /
+// delegate / AddState Channel, real nflog.Log inside one synctest bubble, in virtual time.
 
 // ---------- replayable scenario ----------
 
@@ -153,13 +53,13 @@ func runMember(t *testing.T, c *MemberCase) (term string, viols []vh.Violation, 
 	}
 	var rows []string
 	synctest.Test(t, func(t *testing.T) {
-		hub := &memHub{nodes: map[string]*memTransport{}}
+		hub := memhub.New()
 		lg := slog.New(slog.NewTextHandler(io.Discard, nil))
 		slots := make([]*memberNode, c.Slots)
 		var all []*memberNode
 		var events []string // ground-truth membership events, for the model
 		start := func(i int, name string) {
-			tr, err := hub.listen(slotAddr(i))
+			tr, err := hub.Listen(slotAddr(i))
 			if err != nil {
 				t.Fatalf("listen: %v", err)
 			}
@@ -236,8 +136,21 @@ func runMember(t *testing.T, c *MemberCase) (term string, viols []vh.Violation, 
 				gk := fmt.Sprintf("g%d", nUpdates)
 				recv := receivers[0]
 				// membership as the sender's memberlist sees it at send time
+				// A name the sender still maps to ANOTHER address than the one its running instance has (same-name
+				// restart at a new address while the old incarnation is not yet dead: memberlist treats that as a
+				// name conflict and keeps the old address) is left out: where memberlist sends is not judged here.
 				var members []string
 				for _, m := range src.p.Peers() {
+					stale := false
+					for j, s := range slots {
+						if s != nil && s.up && s.name == m.Name() && slotAddr(j) != m.Address() {
+							stale = true
+						}
+					}
+					if stale {
+						tags["member-listed-at-stale-address-not-judged"]++
+						continue
+					}
 					members = append(members, m.Name())
 				}
 				sort.Strings(members)
